@@ -43,5 +43,6 @@ def rec_function(I, name, base, step, sort="real", extra_args=0):
                 c.assume(z3.Implies(tz >= 1, raw(tz, *xs) == sv))
         return raw(t, *xs)
     call.raw = raw
+    ctx.ghost.setdefault("rec_by_name", {})[f.name()] = call
     store[name] = call
     return call
